@@ -56,15 +56,18 @@ def chain_bytes(n, label, prefix=b""):
     return b"".join(out)[:n]
 
 
-def tar_bytes(files, with_dirs=True):
+def tar_bytes(files, with_dirs=True, with_root=True):
     """files: list of (relative name, bytes[, mode]).  Members are "./", the intermediate directories (each
-    once, before their first use) and "./name" for every file, in the given order (GNU format, as dpkg-deb writes)."""
+    once, before their first use) and "./name" for every file, in the given order (GNU format, as dpkg-deb writes).
+    with_root=False leaves the "./" entry out: with no files that is a tarball without any member (end-of-archive
+    blocks only)."""
     bio = io.BytesIO()
     with tarfile.open(fileobj=bio, mode="w", format=tarfile.GNU_FORMAT) as t:
-        root = tarfile.TarInfo("./")
-        root.type = tarfile.DIRTYPE
-        root.mode = 0o755
-        t.addfile(root)
+        if with_root:
+            root = tarfile.TarInfo("./")
+            root.type = tarfile.DIRTYPE
+            root.mode = 0o755
+            t.addfile(root)
         seen = set()
         for f in files:
             name, data = f[0], f[1]
